@@ -213,4 +213,56 @@ theorem dot_scale {K : Type} [CommRing K] (k : K) : ∀ (A st : List K), dot A (
   | a :: A, b :: st => by simp [dot, dot_scale k A st]; ring
 
 
+/-- what every reset of the infinite layer establishes and every operation keeps: the realisation key is the
+position of the original generator, and the working generator is past the draw of the initial screen -/
+def InfL.Inv (L : InfL) : Prop :=
+  L.start = L.orig.pos ∧ L.orig.pos + 4 * (L.nx * L.ny) ≤ L.rng.pos ∧ L.rng.seed = L.orig.seed
+
+theorem InfL.reset_inv (L : InfL) (b : Bool) (hs : L.rng.seed = L.orig.seed) : (L.reset b).Inv := by
+  cases b <;> simp [InfL.Inv, InfL.reset, InfL.pickRng, InfL.initScreen, Rng.draw, hs]
+
+theorem InfL.extrudeN_rng (w : Where) (k : Nat) (L : InfL) :
+    L.rng.pos ≤ (InfL.extrudeN w k L).rng.pos ∧ (InfL.extrudeN w k L).rng.seed = L.rng.seed := by
+  induction k generalizing L with
+  | zero => simp [InfL.extrudeN]
+  | succ k ih =>
+    have := ih (L.extrude1 w)
+    simp only [InfL.extrudeN]
+    have e1 : (L.extrude1 w).rng.pos = L.rng.pos + (if w.horizontal then L.ny else L.nx) := rfl
+    have e2 : (L.extrude1 w).rng.seed = L.rng.seed := rfl
+    rw [e1, e2] at this
+    constructor
+    · omega
+    · exact this.2
+
+theorem InfL.step_inv (L : InfL) (o : Op) (hi : L.Inv) : (L.step o).Inv := by
+  cases o with
+  | evolve t =>
+    simp only [InfL.step, InfL.evolve]
+    split
+    · exact hi
+    · simp only [Option.getD_some, InfL.evolveWith]
+      generalize pixel (L.center.1 + L.vel.1 * (t - L.t)) L.delta.1 - pixel L.center.1 L.delta.1 = dx
+      generalize pixel (L.center.2 + L.vel.2 * (t - L.t)) L.delta.2 - pixel L.center.2 L.delta.2 = dy
+      have p1 := InfL.extrudeN_params (sideX dx) dx.natAbs L
+      have r1 := InfL.extrudeN_rng (sideX dx) dx.natAbs L
+      have p2 := InfL.extrudeN_params (sideY dy) dy.natAbs (InfL.extrudeN (sideX dx) dx.natAbs L)
+      have r2 := InfL.extrudeN_rng (sideY dy) dy.natAbs (InfL.extrudeN (sideX dx) dx.natAbs L)
+      obtain ⟨h1, h2, h3⟩ := hi
+      refine ⟨?_, ?_, ?_⟩
+      · simp only [p2.2.2.2.2.2.1, p1.2.2.2.2.2.1, p2.2.2.2.2.1, p1.2.2.2.2.1, h1]
+      · simp only [p2.1, p2.2.1, p1.1, p1.2.1, p2.2.2.2.2.1, p1.2.2.2.2.1]
+        omega
+      · simp only [p2.2.2.2.2.1, p1.2.2.2.2.1, r2.2, r1.2, h3]
+  | reset b => exact L.reset_inv b hi.2.2
+  | setCn2 c => simpa [InfL.step, InfL.setCn2, InfL.Inv] using hi
+  | setL0 c => simpa [InfL.step, InfL.setL0, InfL.Inv] using hi
+  | setVel c => simpa [InfL.step, InfL.setVel, InfL.Inv] using hi
+
+theorem InfL.run_inv (h : List Op) (L : InfL) (hi : L.Inv) : (L.run h).Inv := by
+  induction h generalizing L with
+  | nil => exact hi
+  | cons o h ih => exact ih _ (L.step_inv o hi)
+
+
 end HcipyVerif.Layer
